@@ -343,6 +343,19 @@ fn handle(req: &Value, table: &[(&'static str, &'static str, Expander)]) -> Valu
                 Err(e) => json!({"lex_error": e.to_string()}),
             }
         }
+        "expand_seq" => {
+            // C19: expand several items one after the other ON THIS ONE THREAD (the real proc-macro server
+            // expands all derives of a crate on one thread, so thread-local / static state of the macro
+            // survives from one expansion to the next); `reqs` = list of `expand` requests
+            let reqs: Vec<Value> = req["reqs"].as_array().cloned().unwrap_or_default();
+            let mut out = Vec::with_capacity(reqs.len());
+            for r in &reqs {
+                let mut r = r.clone();
+                r["cmd"] = json!("expand");
+                out.push(handle(&r, table));
+            }
+            json!({"seq": out})
+        }
         "hash_probe" => {
             // C19 control: iteration order of the same keys in (1) the crate's own `utils::HashSet` alias
             // (whatever hasher state it is built with) and (2) std's `HashSet` with `RandomState`
